@@ -217,21 +217,29 @@ Definition exn_of_fault (e : ev) (errno : nat) : exn :=
 Definition crash_now (w : world) : bool :=
   match w_crash w with Some k => Nat.eqb k (w_tick w) | None => false end.
 
+Definition after_fault (umask : N) (e : ev) (s : fs) (f : fstate) : fs * fstate :=
+  match e with
+  | EClose => let '(_, s', f') := sem umask EClose s f in (s', f')
+  | EFdopen => (s, FClosed)
+  | _ => (s, f)
+  end.
+
+Definition next_world (w : world) (s : fs) (f : fstate) (e : ev) (r : option nat) : world :=
+  mkW s f (w_umask w) (w_dest w) (S (w_tick w)) (w_crash w) (w_sched w) ((e, r) :: w_trace w).
+
+Definition fault_of (forced : option nat) (w : world) : option nat :=
+  match forced with Some x => Some x | None => sched_fault (w_sched w) (w_tick w) end.
+
 Definition step (e : ev) (forced : option nat) (w : world) : outcome unit * world :=
   let s := interfere w in
-  match (match forced with Some x => Some x | None => sched_fault (w_sched w) (w_tick w) end) with
+  match fault_of forced w with
   | Some errno =>
-      let '(s', f') := match e with
-                       | EClose => let '(_, s', f') := sem (w_umask w) EClose s (w_file w) in (s', f')
-                       | EFdopen => (s, FClosed)
-                       | _ => (s, w_file w)
-                       end in
-      (Exc (exn_of_fault e errno),
-       mkW s' f' (w_umask w) (w_dest w) (S (w_tick w)) (w_crash w) (w_sched w) ((e, Some errno) :: w_trace w))
+      let sf := after_fault (w_umask w) e s (w_file w) in
+      (Exc (exn_of_fault e errno), next_world w (fst sf) (snd sf) e (Some errno))
   | None =>
-      let '(r, s', f') := sem (w_umask w) e s (w_file w) in
-      (match r with None => Val tt | Some errno => Exc (OSErr errno) end,
-       mkW s' f' (w_umask w) (w_dest w) (S (w_tick w)) (w_crash w) (w_sched w) ((e, r) :: w_trace w))
+      let rsf := sem (w_umask w) e s (w_file w) in
+      (match fst (fst rsf) with None => Val tt | Some errno => Exc (OSErr errno) end,
+       next_world w (snd (fst rsf)) (snd rsf) e (fst (fst rsf)))
   end.
 
 Definition prim_f (e : ev) (forced : option nat) : M unit := fun w =>
